@@ -419,6 +419,51 @@ func restOfRound(t *rapid.T, tr *transcript) {
 		ss3, err3 := s.Decapsulate(sk, bad)
 		pkb, _ := pk.MarshalBinary()
 		skb, _ := sk.MarshalBinary()
+		// decoding of crafted keys must give the same verdict (and the same re-encoding) on every back-end:
+		// a 12-bit slot set to a boundary value (q-1, q, q+1, 4095), or an edge byte written somewhere
+		{
+			base := rapid.SampledFrom([]int{0, 32, 56, 65}).Draw(t, "pbase")
+			slot := rapid.IntRange(0, 1<<14).Draw(t, "pslot")
+			val := rapid.SampledFrom([]int{3328, 3329, 3329, 3330, 4095, 0, 6658}).Draw(t, "pval")
+			which := rapid.IntRange(0, 2).Draw(t, "pwhich")
+			for ki, kb := range [][]byte{pkb, skb} {
+				if len(kb) < base+3 {
+					continue
+				}
+				m := append([]byte{}, kb...)
+				n := (len(m) - base) / 3
+				off := base + 3*(slot%n)
+				switch which {
+				case 0: // even slot
+					m[off] = byte(val)
+					m[off+1] = m[off+1]&0xf0 | byte(val>>8)
+				case 1: // odd slot
+					m[off+1] = m[off+1]&0x0f | byte(val<<4)
+					m[off+2] = byte(val >> 4)
+				default: // both
+					m[off], m[off+1], m[off+2] = byte(val), byte(val>>8)|byte(val<<4), byte(val>>4)
+				}
+				var outs [][]byte
+				if ki == 0 {
+					k2, err := s.UnmarshalBinaryPublicKey(m)
+					outs = append(outs, []byte{b2b(err == nil)})
+					if err == nil {
+						re, _ := k2.MarshalBinary()
+						c3, s3, e3 := s.EncapsulateDeterministically(k2, eseed)
+						outs = append(outs, re, c3, s3, []byte{b2b(e3 == nil)})
+					}
+				} else {
+					k2, err := s.UnmarshalBinaryPrivateKey(m)
+					outs = append(outs, []byte{b2b(err == nil)})
+					if err == nil {
+						re, _ := k2.MarshalBinary()
+						s3, e3 := s.Decapsulate(k2, ct)
+						outs = append(outs, re, s3, []byte{b2b(e3 == nil)})
+					}
+				}
+				tr.emit("kem-parse/"+s.Name(), "crafted-key", [][]byte{seed, eseed, {byte(ki), byte(base), byte(slot), byte(slot >> 8), byte(val), byte(val >> 8), byte(which)}}, outs)
+			}
+		}
 		tr.emit("kem/"+s.Name(), c1+c2+"tampered", [][]byte{seed, eseed, {byte(kpos), byte(kpos >> 8), byte(kbit)}}, [][]byte{pkb, skb, ct, ss, ss2, ss3, {b2b(err3 == nil)}}) // inputs are the drawn values only: the altered ciphertext derives from an output
 		_ = kem.Scheme(s)
 	}
